@@ -418,7 +418,7 @@ PROPS['C31'] = {
                   'Mutex is outside Verus; HashMap made CBMC intractable.',
     'level_note': 'the ~120 extern "C" wrappers and guard macros that call the registry are not covered; foreign pointers are modelled as untracked addresses.',
     'technique': TECH_B,
-    'parts': [B('native:pointer_registry', 'ffi', [T('c31_registry_matches_model_all_short_sequences'), T('c31_released_handles_are_untracked_and_second_free_is_an_error')],
+    'parts': [B('native:pointer_registry', 'ffi', [T('c31_registry_matches_model_all_short_sequences'), T('c31_released_handles_are_untracked_and_second_free_is_an_error'), T('c31_consuming_calls_with_aliased_handles')],
                 functions=[('c2pa_c_ffi/src/cimpl/utils.rs', 'track'), ('c2pa_c_ffi/src/cimpl/utils.rs', 'validate'), ('c2pa_c_ffi/src/cimpl/utils.rs', 'untrack'), ('c2pa_c_ffi/src/cimpl/utils.rs', 'free')],
                 bounds='all operation sequences of length 1..=4 (thorough 5) over 28 operations from the empty registry', timeout=3000)],
     'trusted_base': ['rustc', 'the model in kani/ffi_utils.rs'],
